@@ -1135,11 +1135,8 @@ class TaskPool:
 
         for itask in tasks:
             if itask.tdef.name in orphans:
-                if (
-                    itask.state(TASK_STATUS_WAITING)
-                    or itask.state.is_held
-                    or itask.state.is_queued
-                ):
+                if itask.state(TASK_STATUS_WAITING):
+                    # (N.B. tasks can be held in any state.)
                     # Remove orphaned task if it hasn't started running yet.
                     self.remove(itask, 'task definition removed')
                 else:
